@@ -27,7 +27,7 @@ func init() { register(c06{}) }
 func (c06) ID() string    { return "C06" }
 func (c06) Level() string { return "exploration" }
 func (c06) Rule() string {
-	return "streams = concatenations of 1..16 frames (valid frames of all 15 types encoded by the library and by the reference encoder, frames of remaining length 0, content-malformed frames, type-0 frames) followed by nothing, arbitrary bytes or a partial next frame; read by successive ReadPacket calls through a byte-counting reader over a full-fill reader, bufio readers of 16/4096 bytes, one-byte and random fragmentation with zero-length reads, and real net.Pipe / os.Pipe / loopback TCP connections fed by a fragmenting writer goroutine. Offline checker over the per-call event log: bytes drawn per call = 1 + size of remaining-length field + remaining length (reference header parser), conservation over the stream, k-th result = result of frame k alone, io.EOF after the last frame, trailing bytes untouched. distinct = (type sequence, frame kinds, reader kind, trailer kind); non-trivial = at least two frames or a trailer"
+	return "streams = concatenations of 1..16 frames (valid frames of all 15 types encoded by the library and by the reference encoder, frames of remaining length 0, content-malformed frames, type-0 frames) followed by nothing, arbitrary bytes or a partial next frame; read by successive ReadPacket calls through a byte-counting reader over a full-fill reader, bufio readers of 16/4096 bytes (wrapped, and handed over as they are), unwrapped *bytes.Buffer / *bytes.Reader / *strings.Reader, one-byte and random fragmentation with zero-length reads, and real net.Pipe / os.Pipe / loopback TCP connections fed by a fragmenting writer goroutine. Offline checker over the per-call event log: bytes drawn per call = 1 + size of remaining-length field + remaining length (reference header parser), conservation over the stream, k-th result = result of frame k alone, io.EOF after the last frame, trailing bytes untouched. distinct = (type sequence, frame kinds, reader kind, trailer kind); non-trivial = at least two frames or a trailer"
 }
 func (c06) Assumptions() []string {
 	return []string{"readers obey the io.Reader contract", "a call whose fixed header is itself invalid (remaining length longer than four bytes) is outside the statement and ends the stream"}
@@ -40,7 +40,7 @@ func (c06) Phases(env run.Env) []run.Phase {
 	return []run.Phase{{Name: "adjacency", N: 256}, {Name: "streams", N: 3000}, {Name: "soak", N: 96}}
 }
 
-var readerKinds = []string{"full", "bufio16", "bufio4096", "one-byte", "random", "random-zeros", "iotest-half", "bufio-direct16", "bufio-direct4096"}
+var readerKinds = []string{"full", "bufio16", "bufio4096", "one-byte", "random", "random-zeros", "iotest-half", "bufio-direct16", "bufio-direct4096", "bytes.Buffer-direct", "bytes.Reader-direct", "strings.Reader-direct"}
 
 type halfReader struct{ r io.Reader }
 
@@ -164,6 +164,22 @@ func c06Judge(c *run.Ctx, s streamCase, rkind string, rd io.Reader) {
 	// what is handed to ReadPacket, and how many bytes it has consumed so far
 	var src io.Reader = cr
 	pos := func() int64 { return cr.N }
+	switch rkind {
+	case "bytes.Buffer-direct":
+		// the concrete reader types programs hand over, unwrapped, so that
+		// whatever optional interface they offer is visible to ReadPacket
+		bb := bytes.NewBuffer(append([]byte(nil), stream...))
+		src = bb
+		pos = func() int64 { return int64(len(stream) - bb.Len()) }
+	case "bytes.Reader-direct":
+		br := bytes.NewReader(stream)
+		src = br
+		pos = func() int64 { return int64(len(stream) - br.Len()) }
+	case "strings.Reader-direct":
+		sr := strings.NewReader(string(stream))
+		src = sr
+		pos = func() int64 { return int64(len(stream) - sr.Len()) }
+	}
 	if strings.HasPrefix(rkind, "bufio-direct") {
 		// the caller's own *bufio.Reader goes to ReadPacket as it is (as a
 		// connection loop does); consumption = bytes drawn by the bufio
